@@ -70,6 +70,21 @@ def standin_annealing_grid(tier, seed):
             bad = f"is {trace[int(n_ann)]} instead of exactly 1 after the {n_ann} annealing iterations" + (" (n_plateau=1)" if P == 1 else "")
         if bad:
             violations.append(dict(key=f"temperature {bad}", config=label, trace=trace[:25]))
+        else:
+            # the same algorithm object run a second time: the schedule starts again at the initial temperature
+            try:
+                algo._initialize_annealing()
+                trace2 = [float(algo.temperature)]
+                for k in range(1, n_iter + 1):
+                    algo.current_iteration = k
+                    algo._update_temperature()
+                    trace2.append(float(algo.temperature))
+                evals += 1
+                if trace2 != trace:
+                    violations.append(dict(key="a second run of the same algorithm object does not follow the same temperature schedule"
+                                               + (f" (starts at {trace2[0]})" if trace2[0] != trace[0] else ""), config=label, first=trace[:12], second=trace2[:12]))
+            except Exception as e:
+                violations.append(dict(key=f"a second run of the same algorithm object fails: {type(e).__name__}: {str(e)[:80]}", config=label))
         if len(samples) < 2:
             samples.append(dict(config=label, trace=trace[:12]))
     # without annealing: always 1
